@@ -41,6 +41,12 @@ def showdown_street(s):
         or s.street_index == len(s.streets) - 1
 
 
+def showdown_queue_distinct(s):
+    """nobody is queued twice for the showdown"""
+    q = s.showdown_indices
+    return all(q[j] != q[k] for j in range(len(q)) for k in range(len(q)) if j < k)
+
+
 def inv08(s):
-    return (actors_have_chips(s) and betting_has_street(s) and contributions_nonneg(s)
+    return (showdown_queue_distinct(s) and actors_have_chips(s) and betting_has_street(s) and contributions_nonneg(s)
             and dealing_has_street(s) and hole_rows_aligned(s) and showdown_street(s))
